@@ -344,6 +344,18 @@ def LatticeKind : Kind → Prop
   | .boson => True
   | .quad hbar => ∃ p q : Int, hbar.re = p ∧ hbar.im = q
 
+/-- the decidable lattice test the driver evaluates implies the lattice hypothesis -/
+theorem lat_of_latB (D : Nat) (hD : 0 < D) (a : Op) (h : latB D a = true) : ∀ e ∈ a, Lat D e.2 := by
+  intro e he
+  unfold latB at h
+  rw [List.all_eq_true] at h
+  have := h e he
+  simp only [Bool.and_eq_true, beq_iff_eq] at this
+  have hDq : (D : Rat) ≠ 0 := by exact_mod_cast (Nat.pos_iff_ne_zero.1 hD)
+  refine ⟨(e.2.re * D).num, (e.2.im * D).num, ?_, ?_⟩
+  · rw [Rat.coe_int_num_of_den_eq_one this.1]; field_simp
+  · rw [Rat.coe_int_num_of_den_eq_one this.2]; field_simp
+
 /-- fermions: the run with the real tolerance and the run with tolerance 0 agree on the lattice -/
 theorem normal_ordered_exact_regime_aux (D : Nat) (hD : 0 < D) (tol : Rat) (h0 : 0 ≤ tol) (h1 : tol * D ≤ 1)
     (a : Op) (la : ∀ e ∈ a, Lat D e.2) (t : Term) :
